@@ -147,3 +147,37 @@ pub fn vec_to_btreeset(v: Vec<u64>) -> (r: BTreeSet<u64>) ensures r@ =~= v@.to_s
 pub fn opt_copied<T: Copy>(o: Option<&T>) -> (r: Option<T>) ensures o is None ==> r is None, o is Some ==> r == Some(*o->Some_0) { o.copied() }
 pub assume_specification<'a, T: Copy>[ Option::<&'a T>::copied ](o: Option<&'a T>) -> (r: Option<T>)
     ensures o is None ==> r is None, o is Some ==> r == Some(*o->Some_0);
+// Iterator::min_by (R12): the fold of std keeps the current minimum m unless compare(m, x) is Greater.  For every transitive relation `leq` such that
+// the comparator answers Greater whenever !leq(a, b), and only when leq(b, a), the result is a least element.
+pub open spec fn transitive_on<T>(leq: spec_fn(T, T) -> bool, v: Seq<T>) -> bool {
+    (forall|i: int| 0 <= i < v.len() ==> #[trigger] leq(v[i], v[i]))
+    && (forall|i: int, j: int, k: int| 0 <= i < v.len() && 0 <= j < v.len() && 0 <= k < v.len() && #[trigger] leq(v[i], v[j]) && #[trigger] leq(v[j], v[k]) ==> leq(v[i], v[k]))
+}
+pub open spec fn cmp_refines<T, F: Fn(&T, &T) -> core::cmp::Ordering>(f: F, leq: spec_fn(T, T) -> bool, v: Seq<T>) -> bool {
+    forall|i: int, j: int, o: core::cmp::Ordering| 0 <= i < v.len() && 0 <= j < v.len() && #[trigger] f.ensures((&v[i], &v[j]), o)
+        ==> (!leq(v[i], v[j]) ==> o is Greater) && (o is Greater ==> leq(v[j], v[i]))
+}
+#[verifier::external_body]
+pub fn iter_min_by<T, F: Fn(&T, &T) -> core::cmp::Ordering>(v: &Vec<T>, f: F) -> (r: Option<&T>)
+    requires forall|i: int, j: int| 0 <= i < v.len() && 0 <= j < v.len() ==> f.requires((&#[trigger] v[i], &#[trigger] v[j]))
+    ensures (r is None) == (v.len() == 0),
+        r is Some ==> exists|i: int| 0 <= i < v.len() && *r->Some_0 == #[trigger] v[i]
+            && forall|leq: spec_fn(T, T) -> bool| #![trigger transitive_on(leq, v@)] transitive_on(leq, v@) && cmp_refines(f, leq, v@) ==> forall|j: int| 0 <= j < v.len() ==> leq(v[i], #[trigger] v[j]),
+{ v.iter().min_by(|a, b| f(a, b)) }
+// map.iter().filter_map(C).collect::<BTreeSet<u64>>() (R12): exactly the Some-results of the closure over the entries
+#[verifier::external_body]
+pub fn hashmap_filter_map_set<V, F: Fn((&u64, &V)) -> Option<u64>>(m: &HashMap<u64, V>, f: F) -> (r: BTreeSet<u64>)
+    requires forall|k: u64| m@.contains_key(k) ==> f.requires(((&k, &#[trigger] m@[k]),))
+    ensures
+        // every element of the result is the Some-output of the closure on an entry ...
+        forall|u: u64| #[trigger] r@.contains(u) ==> exists|k: u64| m@.contains_key(k) && f.ensures(((&k, &#[trigger] m@[k]),), Some(u)),
+        // ... and every entry was passed to the closure, its output (if Some) being collected
+        forall|k: u64| #[trigger] m@.contains_key(k) ==> exists|o: Option<u64>| #[trigger] f.ensures(((&k, &m@[k]),), o) && (o is Some ==> r@.contains(o->Some_0)),
+{ m.iter().filter_map(f).collect() }
+// bool::then_some
+pub fn bool_then_some(b: bool, v: u64) -> (r: Option<u64>) ensures r == (if b { Some(v) } else { None::<u64> }) { if b { Some(v) } else { None } }
+// BTreeSet::into_iter() handed to a function that takes `impl Iterator` (R22: instantiated at Vec): the elements in ascending order
+#[verifier::external_body]
+pub fn btreeset_into_vec(a: BTreeSet<u64>) -> (r: Vec<u64>)
+    ensures r@.to_set() == a@, r@.no_duplicates(), forall|i: int, j: int| 0 <= i < j < r.len() ==> r[i] < r[j]
+{ a.into_iter().collect() }
